@@ -239,6 +239,26 @@ func TestVerifC10(t *testing.T) {
 			hist["random_steps"]++
 		}
 	}
+	if env.replay == "" {
+		// the resume cases spread over the list, so that every child (one hub each) runs one late
+		rc := c10ResumeCases()
+		n := len(cases)
+		var mixed []*c10Case
+		next := 0
+		for i, c := range cases {
+			mixed = append(mixed, c)
+			if next < len(rc) && i+1 == (next+1)*n/len(rc) {
+				r := rc[next]
+				mixed = append(mixed, &r)
+				next++
+			}
+		}
+		for i, c := range mixed {
+			c.Id = i
+		}
+		cases = mixed
+		hist["resume_cases"] = len(rc)
+	}
 	for _, c := range cases {
 		c.Fixed = fixed
 	}
